@@ -193,7 +193,7 @@ def model_programs(X, Y, metric, fmt):
 
 def write_matrix(X, metric, fmt, tmpdir, dt=None, lay=None):
     import opfython.math.general as g
-    path = os.path.join(tmpdir, "dist_%s.%s" % (metric, fmt))
+    path = os.path.join(tmpdir, "dist.%s.v2.%s" % (metric, fmt))
     g.pre_compute_distance(as_data(X, dt, lay), path, metric)
     return path
 
